@@ -166,7 +166,9 @@ def check_trace(res, tr):
                     witness = None
                     for wid_ in hosts:
                         # (who is there: by the components' own reports, at the start and at the end of the allocation together)
-                        occ = set(c_ for c_ in st.comp_order if U["C"][c_][1] == wid_ or A["C"][c_][1] == wid_)
+                        occ = set(c_ for c_ in st.comp_order if (U["C"][c_][1] == wid_ or A["C"][c_][1] == wid_)
+                                  and not (not st.parents.get(c_) and not st.children.get(c_) and st.comp_tasks[c_]
+                                           and all(UT[t_][0] == FINISHED for t_ in st.comp_tasks[c_])))  # (a finished flat component has left)
                         used = sum(st.comps[c_].get("size", 1.0) for c_ in occ if c_ in st.comps)
                         if not (st.wp[wid_].get("cap", 1.0) - used > size - 1e-8 + 1e-9):
                             all_ok = False
